@@ -314,7 +314,11 @@ fn pool() -> Vec<(&'static str, &'static str)> {
 // ------------------------------------------------------------------------------------------------
 
 pub fn run(s: &mut Session) {
-    let pool = pool();
+    let mut pool = pool();
+    if s.args.scale < 0.05 {
+        // scaled-down (interpreter) runs: a thinned pool
+        pool = pool.into_iter().step_by(if cfg!(miri) { 20 } else { 6 }).collect();
+    }
     let n = pool.len();
     s.note(format!("spelling pool size {n}"));
     if crate::want(s, "spelling-pool") { s.part(
